@@ -15,6 +15,13 @@ From Fiano Require Import Base.Bytes Base.BytesLemmas Base.GoInt Gen.GoKernels M
 From Coq Require Import ZifyBool ZifyNat.
 Open Scope Z_scope.
 
+(* Fail fast.  On the unchanged Go source every command of this file takes well under two seconds
+   (the whole file: 3.5 s).  On a CHANGED x86Convert the conversion check [go_x86Convert_shape]
+   does not fail, it runs (measured: more than 12 minutes, until the driver's 50-minute limit on
+   make).  A per-command limit turns "the Go function changed" into an error after two minutes,
+   naming the lemma; the setting ends with this file. *)
+Set Default Timeout 120.
+
 Lemma go_test86MSByte_tie b : go_test86MSByte b = Bcj.test86 b.
 Proof. reflexivity. Qed.
 
